@@ -122,6 +122,7 @@ func splitInputN(queries []fastaio.EncodedFastaRecord, catchmentSize int, maxdis
 		if targetCounter == 0 {
 			if len(EFR.Seq) != len(queries[0].Seq) {
 				cErr <- errors.New("query and target alignments are not the same width")
+				return
 			}
 		}
 		targetCounter++
